@@ -16,6 +16,15 @@ PD = 'zeroconf._listener.AsyncListener._process_datagram_at_time'
 MEM = ('data', 'last_time', 'last_message')
 
 
+def per_socket_protocol(ctx: Any, R: str, statement: str) -> Ob:
+    """The protocol factory handed to create_datagram_endpoint constructs a fresh AsyncListener per socket."""
+    prog = ctx.prog
+    eng = prog.func('zeroconf._engine.AsyncEngine._async_create_endpoints')
+    lam = [n for n in walk_local_ordered(eng.node) if isinstance(n, ast.Lambda) and isinstance(n.body, ast.Call) and call_name(n.body) == 'AsyncListener']
+    ok = len(lam) == 1 and any(n.in_loop for n in cfg_of(eng.node).nodes if any(x is lam[0] for e in n.exprs() for x in ast.walk(e)))
+    return ob(R, eng, lam[0] if lam else 'protocol factory of create_datagram_endpoint', statement, ok, '' if ok else 'the factory does not construct a new AsyncListener for each socket')
+
+
 @rule('C16.GUARD', 'D', expect_min=20)
 def guard(ctx: Any) -> List[Ob]:
     """The duplicate guard of the datagram processor: the test comes before every
@@ -110,10 +119,7 @@ def guard(ctx: Any) -> List[Ob]:
     tests = [n for n in cfg.nodes if n.kind == 'test' and any(self_attr(x, me) == 'data' for x in ast.walk(n.ast))]
     eff_nodes = [n for n in cfg.nodes if n.kind == 'stmt' and (any(self_attr(t, me) in MEM for t, _ in attr_stores(n.ast)) or any(call_name(c) in dispatch for c in n.calls()))]
     obs.append(ob(R, f, tests[0].ast if tests else 'duplicate test', 'the duplicate test precedes every store and every dispatch', bool(tests) and all(cfg.dominated_by_any(e, tests) for e in eff_nodes)))
-    # per-socket memory: the fields are instance attributes of the per-socket protocol object
-    eng = prog.func('zeroconf._engine.AsyncEngine._async_create_endpoints')
-    lam = [n for n in walk_local_ordered(eng.node) if isinstance(n, ast.Lambda) and isinstance(n.body, ast.Call) and call_name(n.body) == 'AsyncListener']
-    obs.append(ob(R, eng, lam[0] if lam else 'lambda: AsyncListener(self.zc)', 'each socket gets its own protocol object, so the duplicate memory is per socket', len(lam) == 1 and any(n.in_loop for n in cfg_of(eng.node).nodes if any(x is lam[0] for e in n.exprs() for x in ast.walk(e)))))
+    obs.append(per_socket_protocol(ctx, R, 'each socket gets its own protocol object, so the duplicate memory is per socket'))
     # TC deferral ignores an identical packet: decided under C12.WIRING; re-checked minimally
     hq = prog.func('zeroconf._listener.AsyncListener.handle_query_or_defer')
     same = [n for n in walk_local_ordered(hq.node) if isinstance(n, ast.Compare) and '.data' in norm(n) and isinstance(n.ops[0], ast.Eq)]
